@@ -13,7 +13,7 @@ RULE = ('case = generated pipeline (task classes with every input form: by class
         'declaration error (dangling input, self-loop, 2-/3-cycle). oracle = reference graph (names, input bindings by object identity, '
         'graph edges, required/dependent closures for all tasks; construction must fail for cyclic/dangling specs). non-trivial = '
         '>=3 tasks and >=1 edge, or an injected error; distinct = hash(modules, files, root, injection)')
-REQUIRED = ['closure_sequences', 'builds', 'valid_specs', 'tasks_built', 'edges_checked', 'closure_checks', 'expected_error_cycle', 'expected_error_missing_input',
+REQUIRED = ['closure_sequences', 'redefined_declarations', 'builds', 'valid_specs', 'tasks_built', 'edges_checked', 'closure_checks', 'expected_error_cycle', 'expected_error_missing_input',
             'errors_reported']
 ASSUMPTIONS = ['semantics of declarations as in DESIGN.md Appendix A; any exception raised by construction counts as "fails with an error"',
                'two different classes with one group-qualified name, and namespace-qualified references that start with the declaring '
@@ -21,6 +21,46 @@ ASSUMPTIONS = ['semantics of declarations as in DESIGN.md Appendix A; any except
 BUDGET = {'quick': 60, 'thorough': 1200}
 PROPS = {'C08'}
 FEAT = {'contexts': False, 'global_vars': False, 'objects': False}
+
+
+def redefine_after(lab, ref, spec, root, st, res, witness):
+    """the task declarations are edited (an input removed) and defined again in the same interpreter: a chain built afterwards follows the NEW declarations"""
+    import copy as _c
+    import random as _r
+    from ..lab.harness import session_problem
+    from ..lab.oracle import compare_build
+    from ..lab.ref import Ref
+    rng = _r.Random(len(ref.tasks) * 7 + 1)
+    spec2 = _c.deepcopy(spec)
+    cands = [(m, t) for m in spec2['modules'] for t in m['tasks'] if not t.get('abstract') and not t.get('meta_base')
+             and [i for i in t['inputs'] if i['form'] not in ('pattern', 'pattern_all') and i.get('access') != 'args' and not i.get('in_parameters')]
+             and not any(u.get('meta_base') == t['cls'] for u in m['tasks'])]
+    if not cands:
+        return
+    m, t = rng.choice(cands)
+    drop = rng.choice([i for i in t['inputs'] if i['form'] not in ('pattern', 'pattern_all') and i.get('access') != 'args' and not i.get('in_parameters')])
+    t['inputs'].remove(drop)
+    t.pop('reads', None)
+    for pos, inp in enumerate([i for i in t['inputs'] if not i.get('in_parameters')]):
+        if inp.get('access') == 'index':
+            inp['index'] = pos
+    ref2 = Ref(spec2, root)
+    if ref2.error is not None:
+        return
+    r = lab.run([{'op': 'build', 'chain': 'c', 'root': root}, {'op': 'redefine', 'spec': spec2}, {'op': 'build', 'chain': 'c2', 'root': root},
+                 {'op': 'inspect', 'chain': 'c2', 'what': 'deps'}])
+    if session_problem(r):
+        res.inconclusive.append(session_problem(r))
+        return
+    o = r['steps']
+    if not (o[0]['ok'] and o[1]['ok']):
+        return
+    res.count('redefined_declarations')
+    for d in compare_build(ref2, o[2], True):
+        if d['prop'] == 'C08':
+            res.violate(f'after the declaration of {t["cls"]} was edited (input {drop.get("ref") or drop.get("ref_class")} removed) and defined again in the same '
+                        f'interpreter: {d["what"]}', witness=dict(witness, redefined=t['cls']), facts={'tag': 'redefined_' + d['tag']})
+            return
 
 
 def seq_after(lab, ref, spec, root, st, res, witness):
@@ -65,7 +105,7 @@ def run_case(case) -> CaseResult:
         if r < 0.3:
             inject = rng.choice(['dangling', 'selfloop', 'cycle2', 'cycle3'])
         run_build_case(rng, res, PROPS, feat=dict(FEAT, **case.get('feat', {})), inject=inject, parameter_mode=case.get('parameter_mode', True), name_mode_twins=True,
-                       after=seq_after if (i % 3 == 0 and case.get('parameter_mode', True)) else None)
+                       after=(seq_after if i % 3 == 0 else redefine_after if i % 3 == 1 else None) if case.get('parameter_mode', True) else None)
         if len(res.violations) > 3:
             break
     return res
